@@ -17,7 +17,26 @@ pub enum T {
     R,   // record R { b: i32, c: i32, a: i32 }
     L,   // List[i32]
     V,   // Verdict[i32, i32]  (only as a function's return type)
+    K,   // Tok: a registered host type (value type) whose methods and equality log
+    P,   // record P { b: i32, c: i32 }            (two fields)
+    G,   // record G[T] { b: T, c: T, a: T }      at T = i32 (generic, three fields)
+    H,   // record H[T] { b: T, c: T }            at T = i32 (generic, two fields)
 }
+
+/// The record types: (type, name in a literal, number of fields). The fields of every one are a
+/// prefix of `FIELDS` (so a field is named by its position alone).
+pub const RECORDS: [(T, &str, usize); 4] = [(T::R, "R", 3), (T::P, "P", 2), (T::G, "G", 3), (T::H, "H", 2)];
+
+/// How a record literal is written: the record type it has (by its own name or from the
+/// context), and whether the name is left out (`{ c: …, b: … }`).
+#[derive(Clone, Copy, Debug, PartialEq, Eq)]
+pub struct Rk {
+    pub ty: T,
+    pub anon: bool,
+}
+
+pub const RK_R: Rk = Rk { ty: T::R, anon: false };
+pub const RK_RA: Rk = Rk { ty: T::R, anon: true };
 
 impl T {
     pub fn roto(self) -> &'static str {
@@ -31,7 +50,22 @@ impl T {
             T::R => "R",
             T::L => "List[i32]",
             T::V => "Verdict[i32, i32]",
+            T::K => "Tok",
+            T::P => "P",
+            T::G => "G[i32]",
+            T::H => "H[i32]",
         }
+    }
+    /// number of fields of a record type (0 for the others)
+    pub fn nfields(self) -> usize {
+        RECORDS.iter().find(|r| r.0 == self).map(|r| r.2).unwrap_or(0)
+    }
+    pub fn is_record(self) -> bool {
+        self.nfields() > 0
+    }
+    /// the name a literal of this record type carries
+    pub fn lit_name(self) -> &'static str {
+        RECORDS.iter().find(|r| r.0 == self).map(|r| r.1).unwrap_or("?")
     }
     pub fn name(self) -> &'static str {
         match self {
@@ -44,10 +78,14 @@ impl T {
             T::R => "record",
             T::L => "list",
             T::V => "verdict",
+            T::K => "tok",
+            T::P => "record2",
+            T::G => "grecord",
+            T::H => "grecord2",
         }
     }
     pub fn parse(s: &str) -> Option<T> {
-        [T::I, T::B, T::U, T::S, T::O, T::E, T::R, T::L, T::V].into_iter().find(|t| t.name() == s)
+        [T::I, T::B, T::U, T::S, T::O, T::E, T::R, T::L, T::V, T::K, T::P, T::G, T::H].into_iter().find(|t| t.name() == s)
     }
 }
 
@@ -105,13 +143,34 @@ pub const H_EMIT_O: usize = 4;
 pub const H_MIX: usize = 5;
 pub const H_EMIT3: usize = 6;
 pub const H_EMIT_L: usize = 7;
+/// `tok(k, v) -> Tok`
+pub const H_TOK: usize = 8;
+/// `Tok.to_string(self) -> String` as an explicit method call (the compiler calls the same
+/// function implicitly for `{e}` in an f-string; that is not a `Host` node but part of `FStr`)
+pub const H_TO_STRING: usize = 9;
+/// `Tok.peek(self, k) -> i32`
+pub const H_PEEK: usize = 10;
 
 pub fn host_name(f: usize) -> &'static str {
-    ["emit", "emit_b", "emit_u", "emit_s", "emit_o", "mix", "emit3", "emit_l"][f]
+    ["emit", "emit_b", "emit_u", "emit_s", "emit_o", "mix", "emit3", "emit_l", "tok", "to_string", "peek"][f]
 }
 
 pub fn host_ret(f: usize) -> T {
-    [T::I, T::B, T::U, T::S, T::O, T::I, T::I, T::L][f]
+    [T::I, T::B, T::U, T::S, T::O, T::I, T::I, T::L, T::K, T::S, T::I][f]
+}
+
+/// a method: argument 0 is the receiver
+pub fn is_method(f: usize) -> bool {
+    matches!(f, H_MIX | H_TO_STRING | H_PEEK)
+}
+
+/// the position of the call-site key among the arguments (`to_string` has none)
+pub fn key_pos(f: usize) -> Option<usize> {
+    match f {
+        H_TO_STRING => None,
+        H_MIX | H_PEEK => Some(1),
+        _ => Some(0),
+    }
 }
 
 /// record R { b: i32, c: i32, a: i32 }: the fields by position in the declaration — deliberately
@@ -120,6 +179,14 @@ pub const FIELDS: [&str; 3] = ["b", "c", "a"];
 
 /// The six orders in which a literal can write the three fields (positions in the declaration).
 pub const PERMS: [[usize; 3]; 6] = [[0, 1, 2], [0, 2, 1], [1, 0, 2], [1, 2, 0], [2, 0, 1], [2, 1, 0]];
+
+/// … and the two orders of two fields.
+pub const PERMS2: [[usize; 2]; 2] = [[0, 1], [1, 0]];
+
+/// every order in which a literal can write `n` (2 or 3) fields
+pub fn perms_of(n: usize) -> Vec<Vec<usize>> {
+    if n == 2 { PERMS2.iter().map(|p| p.to_vec()).collect() } else { PERMS.iter().map(|p| p.to_vec()).collect() }
+}
 
 /// enum E { A(i32), B(i32, i32), C }
 pub const VARIANTS: [(&str, usize); 3] = [("A", 1), ("B", 2), ("C", 0)];
@@ -156,10 +223,10 @@ pub enum E {
     Some(Box<E>),
     None_,
     Ctor(usize, Vec<E>),
-    /// A literal of `R`: the fields AS WRITTEN — (position of the field in the declaration of
-    /// `R`, expression). `true`: anonymous (`{ c: …, b: …, a: … }`, typed by its context or by
-    /// itself), `false`: `R { … }`.
-    Record(bool, Vec<(usize, E)>),
+    /// A literal of a record type (`R`, `P`, `G[i32]`, `H[i32]`): the fields AS WRITTEN — (position
+    /// of the field in the declaration of the type, expression). `anon`: anonymous
+    /// (`{ c: …, b: …, a: … }`, typed by its context or by itself), else `R { … }` / `G { … }`.
+    Record(Rk, Vec<(usize, E)>),
     Field(Box<E>, usize),
     List(Vec<E>),
     FStr(Vec<Part>),
@@ -225,6 +292,25 @@ pub fn source(p: &Prog) -> String {
         "enum E {{ A(i32), B(i32, i32), C }}\nrecord R {{ {} }}\n",
         FIELDS.iter().map(|f| format!("{f}: i32")).collect::<Vec<_>>().join(", ")
     ));
+    // the other record types are declared only where they are used (a program without them
+    // reads as before)
+    let mut used: Vec<T> = vec![];
+    for f in &p.fns {
+        used.extend(f.params.iter().map(|x| p.var_tys[*x]));
+        let body = E::Block(f.body.clone());
+        used.extend(lit_types(&body));
+        used.extend(let_types(p, &body));
+    }
+    for (t, name, n) in RECORDS.iter().skip(1) {
+        if used.contains(t) {
+            let generic = matches!(t, T::G | T::H);
+            out.push_str(&format!(
+                "record {name}{} {{ {} }}\n",
+                if generic { "[T]" } else { "" },
+                FIELDS[..*n].iter().map(|f| format!("{f}: {}", if generic { "T" } else { "i32" })).collect::<Vec<_>>().join(", ")
+            ));
+        }
+    }
     let last = p.fns.len() - 1;
     for (i, f) in p.fns.iter().enumerate() {
         let name = if i == last { "main".to_string() } else { format!("f{i}") };
@@ -269,9 +355,46 @@ fn stmt_expr(p: &Prog, e: &E, d: usize) -> String {
 fn atomic(e: &E) -> bool {
     match e {
         E::Int(_) | E::Bool(_) | E::Unit | E::Var(_) | E::Call(..) | E::List(_) | E::None_ | E::Some(_) | E::Ctor(..) => true,
-        E::Host(f, _) => *f != H_MIX,
+        E::Host(f, _) => !is_method(*f),
         _ => false,
     }
+}
+
+/// the types of the variables an expression declares with `let`
+fn let_types(p: &Prog, e: &E) -> Vec<T> {
+    fn blk(p: &Prog, b: &Blk, out: &mut Vec<T>) {
+        for s in &b.stmts {
+            if let S::Let(x, _) = s {
+                out.push(p.var_tys[*x]);
+            }
+        }
+    }
+    let mut out = vec![];
+    match e {
+        E::Block(b) | E::If1(_, b) | E::While(_, b) | E::For(_, _, b) => blk(p, b, &mut out),
+        E::Ite(_, a, b) => {
+            blk(p, a, &mut out);
+            blk(p, b, &mut out);
+        }
+        E::Match(_, _, arms) => arms.iter().for_each(|a| blk(p, &a.body, &mut out)),
+        _ => {}
+    }
+    for c in children(e) {
+        out.extend(let_types(p, c));
+    }
+    out
+}
+
+/// the record types of the literals in an expression
+fn lit_types(e: &E) -> Vec<T> {
+    let mut out = vec![];
+    if let E::Record(rk, _) = e {
+        out.push(rk.ty);
+    }
+    for c in children(e) {
+        out.extend(lit_types(c));
+    }
+    out
 }
 
 /// operand position: parenthesise anything that is not obviously atomic
@@ -303,7 +426,7 @@ pub fn expr(p: &Prog, e: &E, d: usize) -> String {
         E::Bool(b) => format!("{b}"),
         E::Unit => "()".to_string(),
         E::Var(x) => format!("x{x}"),
-        E::Host(H_MIX, a) => format!("{}.mix({})", operand(p, &a[0], d), args(p, &a[1..], d)),
+        E::Host(f, a) if is_method(*f) => format!("{}.{}({})", operand(p, &a[0], d), host_name(*f), args(p, &a[1..], d)),
         E::Host(f, a) => format!("{}({})", host_name(*f), args(p, a, d)),
         E::Call(f, a) => format!("f{f}({})", args(p, a, d)),
         E::Bin(op, l, r) => format!("{} {} {}", operand(p, l, d), op.sym(), operand(p, r, d)),
@@ -347,9 +470,10 @@ pub fn expr(p: &Prog, e: &E, d: usize) -> String {
         E::Ctor(v, a) => {
             if a.is_empty() { format!("E.{}", VARIANTS[*v].0) } else { format!("E.{}({})", VARIANTS[*v].0, args(p, a, d)) }
         }
-        E::Record(anon, fs) => format!(
-            "{}{{ {} }}",
-            if *anon { "" } else { "R " },
+        E::Record(rk, fs) => format!(
+            "{}{}{{ {} }}",
+            if rk.anon { "" } else { rk.ty.lit_name() },
+            if rk.anon { "" } else { " " },
             fs.iter().map(|(i, e)| format!("{}: {}", FIELDS[*i], expr(p, e, d))).collect::<Vec<_>>().join(", ")
         ),
         E::Field(r, i) => format!("{}.{}", operand(p, r, d), FIELDS[*i]),
@@ -379,28 +503,28 @@ pub fn sexp(p: &Prog) -> String {
     let fns: Vec<String> = p
         .fns
         .iter()
-        .map(|f| format!("(fn ({}) {})", f.params.iter().map(|x| x.to_string()).collect::<Vec<_>>().join(" "), sblk(&f.body)))
+        .map(|f| format!("(fn ({}) {})", f.params.iter().map(|x| x.to_string()).collect::<Vec<_>>().join(" "), sblk(p, &f.body)))
         .collect();
     format!("(prog {})", fns.join(" "))
 }
 
-fn sblk(b: &Blk) -> String {
+fn sblk(p: &Prog, b: &Blk) -> String {
     let mut items: Vec<String> = b
         .stmts
         .iter()
         .map(|s| match s {
-            S::Let(x, e) => format!("(let {x} {})", sx(e)),
-            S::Do(e) => format!("(do {})", sx(e)),
+            S::Let(x, e) => format!("(let {x} {})", sx(p, e)),
+            S::Do(e) => format!("(do {})", sx(p, e)),
         })
         .collect();
     if let Some(e) = &b.last {
-        items.push(format!("(last {})", sx(e)));
+        items.push(format!("(last {})", sx(p, e)));
     }
     format!("(blk {})", items.join(" "))
 }
 
-fn sxs(es: &[E]) -> String {
-    es.iter().map(sx).collect::<Vec<_>>().join(" ")
+fn sxs(p: &Prog, es: &[E]) -> String {
+    es.iter().map(|e| sx(p, e)).collect::<Vec<_>>().join(" ")
 }
 
 fn spat(p: &Pat) -> String {
@@ -410,59 +534,63 @@ fn spat(p: &Pat) -> String {
     }
 }
 
-pub fn sx(e: &E) -> String {
+pub fn sx(p: &Prog, e: &E) -> String {
     match e {
         E::Int(n) => format!("(int {n})"),
         E::Bool(b) => format!("(bool {})", *b as u8),
         E::Unit => "(unit)".to_string(),
         E::Var(x) => format!("(var {x})"),
-        E::Host(f, a) => format!("(host {f} {})", sxs(a)),
-        E::Call(f, a) => format!("(call {f} {})", sxs(a)),
-        E::Bin(op, l, r) => format!("(bin {} {} {})", op.name(), sx(l), sx(r)),
-        E::And(l, r) => format!("(and {} {})", sx(l), sx(r)),
-        E::Or(l, r) => format!("(or {} {})", sx(l), sx(r)),
-        E::Not(x) => format!("(not {})", sx(x)),
-        E::Neg(x) => format!("(neg {})", sx(x)),
-        E::Ite(c, t, el) => format!("(ite {} {} {})", sx(c), sblk(t), sblk(el)),
-        E::If1(c, t) => format!("(if1 {} {})", sx(c), sblk(t)),
+        E::Host(f, a) => format!("(host {f} {})", sxs(p, a)),
+        E::Call(f, a) => format!("(call {f} {})", sxs(p, a)),
+        // `==` / `!=` on the host type is a construct of its own in the specification (an implicit host call)
+        E::Bin(op @ (Op::Eq | Op::Ne), l, r) if type_of(p, l) == Some(T::K) || type_of(p, r) == Some(T::K) => {
+            format!("(eqh {} {} {})", (*op == Op::Ne) as u8, sx(p, l), sx(p, r))
+        }
+        E::Bin(op, l, r) => format!("(bin {} {} {})", op.name(), sx(p, l), sx(p, r)),
+        E::And(l, r) => format!("(and {} {})", sx(p, l), sx(p, r)),
+        E::Or(l, r) => format!("(or {} {})", sx(p, l), sx(p, r)),
+        E::Not(x) => format!("(not {})", sx(p, x)),
+        E::Neg(x) => format!("(neg {})", sx(p, x)),
+        E::Ite(c, t, el) => format!("(ite {} {} {})", sx(p, c), sblk(p, t), sblk(p, el)),
+        E::If1(c, t) => format!("(if1 {} {})", sx(p, c), sblk(p, t)),
         E::Match(s, is_opt, arms) => {
             let a: Vec<String> = arms
                 .iter()
                 .map(|a| match &a.guard {
-                    None => format!("(arm {} {})", spat(&a.pat), sblk(&a.body)),
-                    Some(g) => format!("(armg {} {} {})", spat(&a.pat), sx(g), sblk(&a.body)),
+                    None => format!("(arm {} {})", spat(&a.pat), sblk(p, &a.body)),
+                    Some(g) => format!("(armg {} {} {})", spat(&a.pat), sx(p, g), sblk(p, &a.body)),
                 })
                 .collect();
-            format!("(match {} {} {})", if *is_opt { "opt" } else { "enm" }, sx(s), a.join(" "))
+            format!("(match {} {} {})", if *is_opt { "opt" } else { "enm" }, sx(p, s), a.join(" "))
         }
-        E::While(c, b) => format!("(while {} {})", sx(c), sblk(b)),
-        E::For(x, l, b) => format!("(for {x} {} {})", sx(l), sblk(b)),
-        E::Block(b) => format!("(block {})", sblk(b)),
-        E::Assign(x, v) => format!("(set {x} {})", sx(v)),
-        E::CAssign(op, x, v) => format!("(cset {} {x} {})", op.name(), sx(v)),
-        E::AssignF(x, i, v) => format!("(setf {x} {i} {})", sx(v)),
-        E::CAssignF(op, x, i, v) => format!("(csetf {} {x} {i} {})", op.name(), sx(v)),
-        E::Ret(v) => format!("(ret {})", sx(v)),
-        E::Accept(v) => format!("(accept {})", sx(v)),
-        E::Reject(v) => format!("(reject {})", sx(v)),
-        E::Try(v) => format!("(try {})", sx(v)),
-        E::Some(v) => format!("(some {})", sx(v)),
+        E::While(c, b) => format!("(while {} {})", sx(p, c), sblk(p, b)),
+        E::For(x, l, b) => format!("(for {x} {} {})", sx(p, l), sblk(p, b)),
+        E::Block(b) => format!("(block {})", sblk(p, b)),
+        E::Assign(x, v) => format!("(set {x} {})", sx(p, v)),
+        E::CAssign(op, x, v) => format!("(cset {} {x} {})", op.name(), sx(p, v)),
+        E::AssignF(x, i, v) => format!("(setf {x} {i} {})", sx(p, v)),
+        E::CAssignF(op, x, i, v) => format!("(csetf {} {x} {i} {})", op.name(), sx(p, v)),
+        E::Ret(v) => format!("(ret {})", sx(p, v)),
+        E::Accept(v) => format!("(accept {})", sx(p, v)),
+        E::Reject(v) => format!("(reject {})", sx(p, v)),
+        E::Try(v) => format!("(try {})", sx(p, v)),
+        E::Some(v) => format!("(some {})", sx(p, v)),
         E::None_ => "(none)".to_string(),
-        E::Ctor(v, a) => format!("(ctor {v} {})", sxs(a)),
+        E::Ctor(v, a) => format!("(ctor {v} {})", sxs(p, a)),
         E::Record(_, fs) => format!(
             "(record ({}) {})",
             fs.iter().map(|(i, _)| i.to_string()).collect::<Vec<_>>().join(" "),
-            fs.iter().map(|(_, e)| sx(e)).collect::<Vec<_>>().join(" ")
+            fs.iter().map(|(_, e)| sx(p, e)).collect::<Vec<_>>().join(" ")
         ),
-        E::Field(r, i) => format!("(field {} {i})", sx(r)),
-        E::List(es) => format!("(list {})", sxs(es)),
-        E::Concat(l, r) => format!("(concat {} {})", sx(l), sx(r)),
+        E::Field(r, i) => format!("(field {} {i})", sx(p, r)),
+        E::List(es) => format!("(list {})", sxs(p, es)),
+        E::Concat(l, r) => format!("(concat {} {})", sx(p, l), sx(p, r)),
         E::FStr(parts) => {
             let ps: Vec<String> = parts
                 .iter()
-                .map(|p| match p {
+                .map(|pt| match pt {
                     Part::Str(s) => format!("(s x{})", hex(s)),
-                    Part::Expr(e) => format!("(e {})", sx(e)),
+                    Part::Expr(e) => format!("(e {})", sx(p, e)),
                 })
                 .collect();
             format!("(fstr {})", ps.join(" "))
@@ -567,7 +695,7 @@ pub fn effectful(e: &E) -> bool {
 
 /// construct histogram, plus "position" classes: (parent construct, child index, child is effectful)
 pub fn constructs(p: &Prog) -> (BTreeMap<String, u64>, BTreeMap<String, u64>, usize) {
-    fn walk(e: &E, d: usize, cons: &mut BTreeMap<String, u64>, pos: &mut BTreeMap<String, u64>, depth: &mut usize) {
+    fn walk(p: &Prog, e: &E, d: usize, cons: &mut BTreeMap<String, u64>, pos: &mut BTreeMap<String, u64>, depth: &mut usize) {
         *cons.entry(kind(e)).or_insert(0) += 1;
         *depth = (*depth).max(d);
         if let E::Match(_, _, arms) = e {
@@ -578,26 +706,43 @@ pub fn constructs(p: &Prog) -> (BTreeMap<String, u64>, BTreeMap<String, u64>, us
                 *cons.entry("match-wildcard".into()).or_insert(0) += 1;
             }
         }
-        if let E::Record(anon, fs) = e {
+        if let E::Record(rk, fs) = e {
             if fs.windows(2).any(|w| w[0].0 > w[1].0) {
                 *cons.entry("record-not-in-declared-order".into()).or_insert(0) += 1;
             }
-            if *anon {
+            if rk.anon {
                 *cons.entry("record-anonymous".into()).or_insert(0) += 1;
+            }
+            if matches!(rk.ty, T::G | T::H) {
+                *cons.entry("record-generic".into()).or_insert(0) += 1;
+            }
+            if fs.len() == 2 {
+                *cons.entry("record-2-fields".into()).or_insert(0) += 1;
+            }
+        }
+        // host calls the compiler inserts implicitly
+        if let E::FStr(ps) = e {
+            if ps.iter().any(|pt| matches!(pt, Part::Expr(x) if type_of(p, x) == Some(T::K))) {
+                *cons.entry("implicit-to_string".into()).or_insert(0) += 1;
+            }
+        }
+        if let E::Bin(Op::Eq | Op::Ne, l, _) = e {
+            if type_of(p, l) == Some(T::K) {
+                *cons.entry("implicit-eq".into()).or_insert(0) += 1;
             }
         }
         for (i, c) in children(e).into_iter().enumerate() {
             if effectful(c) {
                 *pos.entry(format!("{}[{}]<-{}", kind(e), i.min(3), kind(c))).or_insert(0) += 1;
             }
-            walk(c, d + 1, cons, pos, depth);
+            walk(p, c, d + 1, cons, pos, depth);
         }
     }
     let (mut cons, mut pos, mut depth) = (BTreeMap::new(), BTreeMap::new(), 0);
     for f in &p.fns {
         let wrapper = E::Block(f.body.clone());
         for c in children(&wrapper) {
-            walk(c, 1, &mut cons, &mut pos, &mut depth);
+            walk(p, c, 1, &mut cons, &mut pos, &mut depth);
         }
     }
     (cons, pos, depth)
@@ -614,8 +759,9 @@ pub fn default_of(t: T) -> Option<E> {
         T::S => E::FStr(vec![]),
         T::O => E::None_,
         T::E => E::Ctor(2, vec![]),
-        T::R => E::Record(false, (0..FIELDS.len()).map(|i| (i, E::Int(0))).collect()),
+        T::R | T::P | T::G | T::H => E::Record(Rk { ty: t, anon: false }, (0..t.nfields()).map(|i| (i, E::Int(0))).collect()),
         T::L => E::List(vec![]),
+        T::K => E::Host(H_TOK, vec![E::Int(0), E::Int(0)]),
         T::V => return None,
     })
 }
@@ -646,7 +792,7 @@ pub fn type_of(p: &Prog, e: &E) -> Option<T> {
         E::Try(_) => Some(T::I),
         E::Some(_) | E::None_ => Some(T::O),
         E::Ctor(..) => Some(T::E),
-        E::Record(..) => Some(T::R),
+        E::Record(rk, _) => Some(rk.ty),
         E::Field(..) => Some(T::I),
         E::List(_) => Some(T::L),
         E::FStr(_) | E::Concat(..) => Some(T::S),
@@ -725,16 +871,16 @@ fn root_edits(p: &Prog, e: &E) -> Vec<E> {
                 out.push(E::FStr(a));
             }
         }
-        E::Record(anon, fs) => {
+        E::Record(rk, fs) => {
             // the same literal with the fields written in the order of the declaration
             if fs.windows(2).any(|w| w[0].0 > w[1].0) {
                 let mut a = fs.clone();
                 a.sort_by_key(|(i, _)| *i);
-                out.push(E::Record(*anon, a));
+                out.push(E::Record(*rk, a));
             }
             // the same literal with the type's name in front
-            if *anon {
-                out.push(E::Record(false, fs.clone()));
+            if rk.anon {
+                out.push(E::Record(Rk { ty: rk.ty, anon: false }, fs.clone()));
             }
         }
         _ => {}
@@ -805,10 +951,10 @@ fn expr_edits(p: &Prog, e: &E, k: &mut usize) -> Option<E> {
     match e {
         E::Int(_) | E::Bool(_) | E::Unit | E::Var(_) | E::None_ => {}
         E::Host(f, a) => {
-            // the call-site key (argument 0; argument 1 of the method) is never edited
-            let key = if *f == H_MIX { 1 } else { 0 };
+            // the call-site key (argument 0; argument 1 of a method) is never edited
+            let key = key_pos(*f);
             for i in 0..a.len() {
-                if i == key {
+                if Some(i) == key {
                     continue;
                 }
                 if let Some(n) = expr_edits(p, &a[i], k) {
@@ -820,12 +966,12 @@ fn expr_edits(p: &Prog, e: &E, k: &mut usize) -> Option<E> {
         }
         E::Call(f, a) => subv!(a, |nv| E::Call(*f, nv)),
         E::Ctor(v, a) => subv!(a, |nv| E::Ctor(*v, nv)),
-        E::Record(anon, fs) => {
+        E::Record(rk, fs) => {
             for i in 0..fs.len() {
                 if let Some(n) = expr_edits(p, &fs[i].1, k) {
                     let mut nf = fs.clone();
                     nf[i].1 = n;
-                    return Some(E::Record(*anon, nf));
+                    return Some(E::Record(*rk, nf));
                 }
             }
         }
